@@ -61,7 +61,7 @@ def run_tlc(module, cfg, env=None, workers=16, extra=(), timeout=3600, xmx="4g",
     e = dict(os.environ)
     if env:
         e.update(env)
-    jopts = (["-XX:+UseSerialGC", "-XX:TieredStopAtLevel=1"] if workers == 1 else ["-XX:+UseParallelGC"]) + ["-Xmx" + xmx]
+    jopts = (["-XX:+UseSerialGC", "-XX:TieredStopAtLevel=1"] if workers == 1 else ["-XX:+UseParallelGC"]) + ["-Xmx" + xmx, "-Xss256m"]
     if tol is not None:
         jopts.append("-Dnum.tol=%s" % tol)
     if deque:
